@@ -336,11 +336,323 @@ type c07MNode struct {
 	ni   *framework.NodeInfo
 }
 
-func TestVerifC07Designated(t *testing.T) {
-	h := vOpen("C07")
-	if h == nil {
-		t.Skip("VERIF_OUT not set")
+// the nodes of one case
+type c07Multi struct {
+	t     *testing.T
+	h     *vHarness
+	pl    *Plugin
+	podTx cache.TransformFunc
+	names []string
+	ns    []*c07MNode
+	cur   int
+	mem   int64
+}
+
+func (m *c07Multi) sel(i int) *c07MNode {
+	if m.cur != i {
+		m.h.Op("sel %d", i)
+		m.cur = i
 	}
+	return m.ns[i]
+}
+
+func (m *c07Multi) frac(amount int64) c07Vec { return c07Vec{amount, amount * m.mem / 100, amount} }
+
+func c07NewMulti(t *testing.T, h *vHarness, r *vRand, pl *Plugin, podTx cache.TransformFunc, nodes []*corev1.Node, names []string, nn int, mem int64) *c07Multi {
+	m := &c07Multi{t: t, h: h, pl: pl, podTx: podTx, names: names, cur: -1, mem: mem}
+	for i := 0; i < nn; i++ {
+		base := &c07Case{h: h, r: r, cache: pl.nodeDeviceCache, exact: true, histX: true, sched: true, nextPod: 1, nname: names[i],
+			cur: &c07Ledger{rows: map[[2]int]*c07Row{}, pods: map[[2]int]map[int]c07Vals{}}}
+		for tt := 0; tt < 3; tt++ {
+			base.live[tt] = map[int][]c07Alloc{}
+		}
+		base.inPlay = []int{0}
+		base.da[0] = 3
+		ni := framework.NewNodeInfo()
+		ni.SetNode(nodes[i])
+		m.ns = append(m.ns, &c07MNode{c07Case: base, idx: i, node: nodes[i], ni: ni})
+	}
+	return m
+}
+
+// one scheduling cycle; everything that is a choice is in the spec
+type c07CycleSpec struct {
+	id         int
+	cnt        int   // GPUs
+	amount     int64 // per GPU (core and memory-ratio)
+	joint      bool  // + RDMA share ra, device-joint-allocate annotation
+	ra         int64
+	hasAnn     bool // the pod carries a device-allocated annotation: des (GPU), desR (RDMA)
+	hint       bool // the scheduling hint names the DeviceShare plugin
+	des, desR  []c07Alloc
+	deprecated bool                       // SPEC and annotation written with deprecated names
+	order      []int                      // Filter over these nodes, in this order
+	between    func()                     // what happens between Filter and Reserve
+	pick       func(feasible []int) int   // the node Reserve is called on
+	unreserve  bool
+}
+
+// returns (a Reserve committed, the case must stop)
+func (m *c07Multi) cycle(sp *c07CycleSpec) (bool, bool) {
+	h, pl, names := m.h, m.pl, m.names
+	id, cnt, amount, joint, ra, hasAnn, hint, des, desR := sp.id, sp.cnt, sp.amount, sp.joint, sp.ra, sp.hasAnn, sp.hint, sp.des, sp.desR
+	req := c07Vec{amount, -1, amount}
+	podReq := corev1.ResourceList{
+		apiext.ResourceGPUCore:        *resource.NewQuantity(amount*int64(cnt), resource.DecimalSI),
+		apiext.ResourceGPUMemoryRatio: *resource.NewQuantity(amount*int64(cnt), resource.DecimalSI),
+	}
+	pod := c07Pod(id, nil, "")
+	pod.UID = types.UID(fmt.Sprintf("uid-%d", id))
+	if joint {
+		podReq[apiext.ResourceRDMA] = *resource.NewQuantity(ra, resource.DecimalSI)
+		pod.Annotations = map[string]string{apiext.AnnotationDeviceJointAllocate: `{"deviceTypes":["gpu","rdma"]}`}
+		h.Tag("cycle:joint-gpu+rdma")
+	}
+	pod.Spec.Containers = []corev1.Container{{Name: "c", Resources: corev1.ResourceRequirements{Requests: podReq, Limits: podReq}}}
+	if hasAnn {
+		dg := c07Groups{0: des}
+		if joint {
+			dg[1] = desR
+		}
+		_ = apiext.SetDeviceAllocations(pod, dg.api())
+	}
+	// a pod created by an old client: its SPEC and its device-allocated annotation use the deprecated resource names; the
+	// scheduler sees it only after the pod informer's transformer (as every pod it schedules)
+	if sp.deprecated {
+		rq := corev1.ResourceList{}
+		for name, q := range podReq {
+			switch name {
+			case apiext.ResourceGPUCore:
+				name = apiext.DeprecatedGPUCore
+			case apiext.ResourceGPUMemoryRatio:
+				name = apiext.DeprecatedGPUMemoryRatio
+			case apiext.ResourceRDMA:
+				name = apiext.DeprecatedKoordRDMA
+			}
+			rq[name] = q
+		}
+		pod.Spec.Containers[0].Resources = corev1.ResourceRequirements{Requests: rq, Limits: rq.DeepCopy()}
+		if hasAnn {
+			na := c07NAnn{}
+			for _, a := range des {
+				na[0] = append(na[0], c07NEntry{minor: a.minor, leg: a.vec, cur: c07Absent})
+			}
+			if joint {
+				for _, a := range desR {
+					na[1] = append(na[1], c07NEntry{minor: a.minor, leg: a.vec, cur: c07Absent})
+				}
+			}
+			_ = apiext.SetDeviceAllocations(pod, na.api())
+		}
+		h.Tag("cycle:pod-with-deprecated-names")
+	}
+	if out, err := m.podTx(pod); err == nil {
+		pod = out.(*corev1.Pod)
+	} else {
+		m.t.Fatalf("pod transformer: %v", err)
+	}
+	designated := hasAnn && hint
+	switch {
+	case designated:
+		h.Tag("cycle:designated")
+	case hasAnn:
+		h.Tag("cycle:annotation-without-hint")
+	default:
+		h.Tag("cycle:plain")
+	}
+	cs := framework.NewCycleState()
+	if hint {
+		hinter.SetSchedulingHintState(cs, &hinter.SchedulingHintStateData{Extensions: map[string]interface{}{Name: nil}})
+	}
+	if hasAnn {
+		h.Op("cyb 1 %d %s", vB(hint), c07EntriesTok(des))
+	} else {
+		h.Op("cyb 0 %d 0", vB(hint))
+	}
+	var pst *fwktype.Status
+	if h.Guard(func() { _, pst = pl.PreFilter(context.TODO(), cs, pod, nil) }) {
+		h.Obs("panic")
+		return false, true
+	}
+	if !pst.IsSuccess() {
+		h.Fail("C07:prefilter-refused", "PreFilter refused a well-formed GPU pod: %v", pst)
+		return false, true
+	}
+	// do the GPUs the pod may use fit on the value ledger l?  (designated: exactly these GPUs; else: any cnt non-zero GPUs)
+	fitsDesignated := func(l *c07Ledger) bool {
+		for _, a := range des {
+			row := l.row(0, a.minor)
+			if row.t == (c07Vals{}) {
+				return false
+			}
+			for k := 0; k < c07D; k++ {
+				if req.val(k) > row.f[k] {
+					return false
+				}
+			}
+		}
+		return true
+	}
+	fitsAny := func(nd *c07MNode, l *c07Ledger) bool {
+		q := 0
+		for _, d := range nd.inv[0] {
+			row := l.row(0, d.minor)
+			if row.t == (c07Vals{}) {
+				continue
+			}
+			ok := true
+			for k := 0; k < c07D; k++ {
+				if req.val(k) > row.f[k] {
+					ok = false
+				}
+			}
+			if ok {
+				q++
+			}
+		}
+		return q >= cnt
+	}
+	fits := func(nd *c07MNode) bool {
+		if designated {
+			return fitsDesignated(nd.cur)
+		}
+		return fitsAny(nd, nd.cur)
+	}
+	var feasible []int
+	for _, i := range sp.order {
+		nd := m.sel(i)
+		h.Op("cyf %s %d %s", c07IntsTok(nd.infoMin[0]), cnt, req.tok())
+		var st *fwktype.Status
+		if h.Guard(func() { st = pl.Filter(context.TODO(), cs, pod, nd.ni) }) {
+			h.Obs("panic")
+			continue
+		}
+		h.Obs("filter %d", vB(st.IsSuccess()))
+		h.Tag(fmt.Sprintf("cycle:Filter:%d", vB(st.IsSuccess())))
+		if want := fits(nd); want != st.IsSuccess() {
+			h.Fail("C07:filter-verdict", "Filter of pod %d (%d GPU x %v, designated %v) on node %d answered %v; the GPUs it may use there fit = %v", id, cnt, req, designated, i, st, want)
+		}
+		if st.IsSuccess() {
+			feasible = append(feasible, i)
+		}
+	}
+	if sp.between != nil {
+		sp.between()
+	}
+	x := sp.pick(feasible)
+	nd := m.sel(x)
+	before := nd.cur
+	var rst *fwktype.Status
+	var result apiext.DeviceAllocations
+	if h.Guard(func() {
+		schedulingphase.RecordPhase(cs, schedulingphase.Reserve) // frameworkExtenderImpl.RunReservePluginsReserve
+		defer schedulingphase.RecordPhase(cs, "")
+		rst = pl.Reserve(context.TODO(), cs, pod, names[x])
+		if rst.IsSuccess() {
+			if state, st := getPreFilterState(cs); st.IsSuccess() {
+				result = state.allocationResult
+			}
+		}
+	}) {
+		h.Op("cyr %s %d %s 0 0", c07IntsTok(nd.infoMin[0]), cnt, req.tok())
+		h.Obs("panic")
+		return false, true
+	}
+	res := c07ResultOf(0, result[schedulingv1alpha1.GPU], !rst.IsSuccess())
+	h.Op("cyr %s %d %s %d %s", c07IntsTok(nd.infoMin[0]), cnt, req.tok(), vB(res.ok), c07IntsTok(res.minors))
+	h.Tag(fmt.Sprintf("cycle:Reserve:%d", vB(res.ok)))
+	want := fits(nd)
+	if !res.ok {
+		h.Obs("alloc fail")
+		if want {
+			h.Fail("C07:reserve-refused-although-free", "Reserve of pod %d (%d GPU x %v, designated %v: %v) on node %d refused (%v) although the GPUs it may use are free there", id, cnt, req, designated, des, x, rst)
+		}
+		return false, false
+	}
+	ms := append([]int(nil), res.minors...)
+	sort.Ints(ms)
+	if len(ms) == 0 {
+		h.Obs("alloc ok 0")
+	} else {
+		h.Obs("alloc ok %d %s", len(ms), vIntsI(ms))
+		h.Obs("cov 1")
+	}
+	g := c07GroupsOf(result)
+	// --- the property at the commit point, on the ledger of node x as it was just before Reserve ---
+	wantTypes := 1
+	if joint {
+		wantTypes = 2
+	}
+	if len(g) != wantTypes || len(g[0]) == 0 || (joint && len(g[1]) != 1) {
+		h.Fail("C07:reserve-committed-types", "pod %d requests %d device type(s) (GPU, joint RDMA: %v); Reserve on node %d (well planned: %v) committed device types %v", id, wantTypes, joint, x, nd.wellPlanned, g.types())
+	}
+	if joint && len(g[1]) == 1 {
+		a := g[1][0]
+		row := before.row(1, a.minor)
+		if a.vec[0] != ra {
+			h.Fail("C07:alloc-unsound:amount", "RDMA %d committed %v, requested %d", a.minor, a.vec, ra)
+		}
+		if a.vec.val(0) > row.f[0] {
+			h.Fail("C07:reserve-device-not-free", "pod %d: Reserve on node %d committed %v on RDMA %d whose free amount there at that moment was %v", id, x, a.vec, a.minor, row.f)
+		}
+		if designated && len(desR) == 1 && desR[0].minor != a.minor {
+			h.Fail("C07:reserve-outside-designation", "pod %d is designated to RDMA %d, Reserve committed RDMA %d", id, desR[0].minor, a.minor)
+		}
+	}
+	if len(g[0]) != cnt {
+		h.Fail("C07:alloc-unsound:count", "%d GPUs committed, %d requested", len(g[0]), cnt)
+	}
+	seen := map[int]bool{}
+	for _, a := range g[0] {
+		if seen[a.minor] {
+			h.Fail("C07:alloc-unsound:duplicate-minor", "minor %d committed twice", a.minor)
+		}
+		seen[a.minor] = true
+		row := before.row(0, a.minor)
+		for k := 0; k < c07D; k++ {
+			if req[k] >= 0 && a.vec[k] != req[k] {
+				h.Fail("C07:alloc-unsound:amount", "GPU %d committed %v, per-GPU request %v", a.minor, a.vec, req)
+			}
+			if a.vec.val(k) > row.f[k] {
+				h.Fail("C07:reserve-device-not-free", "pod %d: Reserve on node %d committed %v on GPU %d whose free amount there at that moment was %v (total %v, in use %v)", id, x, a.vec, a.minor, row.f, row.t, row.u)
+				break
+			}
+		}
+		if designated {
+			in := false
+			for _, d := range des {
+				in = in || d.minor == a.minor
+			}
+			if !in {
+				h.Fail("C07:reserve-outside-designation", "pod %d is designated to GPUs %v, Reserve committed GPU %d", id, des, a.minor)
+			}
+		}
+	}
+	h.Op("add %d %s", id, g.tok())
+	for _, tt := range g.types() {
+		nd.noteAdd(tt, id, g[tt], before)
+	}
+	nd.cur = nd.emitLedger()
+	nd.checkLedger("commit", before, nd.cur)
+	// sometimes the binding fails: Unreserve gives everything back
+	if sp.unreserve {
+		h.Op("rem %d %s", id, g.tok())
+		b2 := nd.cur
+		if h.Guard(func() { pl.Unreserve(context.TODO(), cs, pod, names[x]) }) {
+			h.Obs("panic")
+			return true, false
+		}
+		for _, tt := range g.types() {
+			nd.noteRemove(tt, id, g[tt])
+		}
+		nd.cur = nd.emitLedger()
+		nd.checkLedger("release", b2, nd.cur)
+		h.Tag("cycle:Unreserve")
+	}
+	return true, false
+}
+
+func c07DesignatedFixture(t *testing.T) (*Plugin, []*corev1.Node, []string) {
 	names := []string{"n0", "n1", "n2"}
 	var nodes []*corev1.Node
 	for _, nm := range names {
@@ -351,7 +663,15 @@ func TestVerifC07Designated(t *testing.T) {
 	if err != nil {
 		t.Fatalf("plugin: %v", err)
 	}
-	pl := p.(*Plugin)
+	return p.(*Plugin), nodes, names
+}
+
+func TestVerifC07Designated(t *testing.T) {
+	h := vOpen("C07")
+	if h == nil {
+		t.Skip("VERIF_OUT not set")
+	}
+	pl, nodes, names := c07DesignatedFixture(t)
 	podTx, _ := c07Transforms()
 
 	n := h.N(400, 8000)
@@ -370,33 +690,17 @@ func TestVerifC07Designated(t *testing.T) {
 		if jointCase {
 			h.Tag("stream:gpu+rdma-joint")
 		}
-		var ns []*c07MNode
-		cur := -1
-		sel := func(i int) *c07MNode {
-			if cur != i {
-				h.Op("sel %d", i)
-				cur = i
-			}
-			return ns[i]
-		}
+		m := c07NewMulti(t, h, r, pl, podTx, nodes, names, nn, mem)
+		ns := m.ns
 		nextPod := 1
 		for i := 0; i < nn; i++ {
-			base := &c07Case{h: h, r: r, cache: pl.nodeDeviceCache, exact: true, histX: true, sched: true, nextPod: 1, nname: names[i],
-				cur: &c07Ledger{rows: map[[2]int]*c07Row{}, pods: map[[2]int]map[int]c07Vals{}}}
-			for tt := 0; tt < 3; tt++ {
-				base.live[tt] = map[int][]c07Alloc{}
-			}
-			base.inPlay = []int{0}
-			base.da[0] = 3
-			ni := framework.NewNodeInfo()
-			ni.SetNode(nodes[i])
-			ns = append(ns, &c07MNode{c07Case: base, idx: i, node: nodes[i], ni: ni})
+			base := ns[i].c07Case
 			if jointCase {
 				base.wellPlanned = r.Bool()
 				base.inPlay = []int{0, 1}
 				base.da[1] = 1
-				for m := 0; m < 2; m++ {
-					base.inv[1] = append(base.inv[1], c07Dev{minor: m, healthy: true, res: c07Vec{100, -1, -1}, numa: -1})
+				for mi := 0; mi < 2; mi++ {
+					base.inv[1] = append(base.inv[1], c07Dev{minor: mi, healthy: true, res: c07Vec{100, -1, -1}, numa: -1})
 				}
 				if base.wellPlanned {
 					h.Tag("node:secondary-device-well-planned")
@@ -404,12 +708,11 @@ func TestVerifC07Designated(t *testing.T) {
 			}
 			// the same minors on every node (a designation names minors, not nodes)
 			ng := r.Range(2, 3)
-			for m := 0; m < ng; m++ {
-				base.inv[0] = append(base.inv[0], c07Dev{minor: m, healthy: !r.Chance(1, 12), res: c07Vec{100, mem, 100}, numa: -1})
+			for mi := 0; mi < ng; mi++ {
+				base.inv[0] = append(base.inv[0], c07Dev{minor: mi, healthy: !r.Chance(1, 12), res: c07Vec{100, mem, 100}, numa: -1})
 			}
-			sel(i).applyInventory(false)
+			m.sel(i).applyInventory(false)
 		}
-		frac := func(amount int64) c07Vec { return c07Vec{amount, amount * mem / 100, amount} }
 		// background load: pods already running on some GPUs of some nodes (raw informer adds)
 		for i, k := 0, r.Range(1, 4); i < k; i++ {
 			nd := ns[r.Intn(nn)]
@@ -419,308 +722,73 @@ func TestVerifC07Designated(t *testing.T) {
 			}
 			id := nextPod
 			nextPod++
-			sel(nd.idx).doAddOn(id, c07Groups{0: {{minor: d.minor, vec: frac(int64(r.Pick([]int64{30, 50, 100, 100})))}}})
+			m.sel(nd.idx).doAddOn(id, c07Groups{0: {{minor: d.minor, vec: m.frac(int64(r.Pick([]int64{30, 50, 100, 100})))}}})
 		}
 
 		cycles := r.Range(1, 3)
 		reserved := 0
 		for cyi := 0; cyi < cycles; cyi++ {
-			id := nextPod
+			sp := &c07CycleSpec{id: nextPod, cnt: 1, amount: int64(r.Pick([]int64{30, 50, 100, 100}))}
 			nextPod++
-			// the pod: cnt GPUs, amount per GPU
-			cnt := 1
-			amount := int64(r.Pick([]int64{30, 50, 100, 100}))
 			if r.Chance(1, 4) {
-				cnt, amount = 2, 100
+				sp.cnt, sp.amount = 2, 100
 			}
-			joint := jointCase && r.Bool()
-			var ra int64
-			if joint { // whole GPUs + a share of one RDMA device
-				amount = 100
-				ra = int64(r.Pick([]int64{10, 20}))
-				h.Tag("cycle:joint-gpu+rdma")
+			sp.joint = jointCase && r.Bool()
+			if sp.joint { // whole GPUs + a share of one RDMA device
+				sp.amount = 100
+				sp.ra = int64(r.Pick([]int64{10, 20}))
 			}
-			req := c07Vec{amount, -1, amount}
-			podReq := corev1.ResourceList{
-				apiext.ResourceGPUCore:        *resource.NewQuantity(amount*int64(cnt), resource.DecimalSI),
-				apiext.ResourceGPUMemoryRatio: *resource.NewQuantity(amount*int64(cnt), resource.DecimalSI),
-			}
-			pod := c07Pod(id, nil, "")
-			pod.UID = types.UID(fmt.Sprintf("uid-%d", id))
-			if joint {
-				podReq[apiext.ResourceRDMA] = *resource.NewQuantity(ra, resource.DecimalSI)
-				pod.Annotations = map[string]string{apiext.AnnotationDeviceJointAllocate: `{"deviceTypes":["gpu","rdma"]}`}
-			}
-			pod.Spec.Containers = []corev1.Container{{Name: "c", Resources: corev1.ResourceRequirements{Requests: podReq, Limits: podReq}}}
 			// designation: the annotation of an earlier placement (cnt entries on distinct minors)
-			hasAnn := r.Chance(4, 5)
-			hint := r.Chance(5, 6)
-			var des, desR []c07Alloc
-			if hasAnn {
+			sp.hasAnn = r.Chance(4, 5)
+			sp.hint = r.Chance(5, 6)
+			if sp.hasAnn {
 				pm := r.Perm(2)
-				for i := 0; i < cnt; i++ {
-					des = append(des, c07Alloc{minor: pm[i], vec: frac(amount)})
+				for i := 0; i < sp.cnt; i++ {
+					sp.des = append(sp.des, c07Alloc{minor: pm[i], vec: m.frac(sp.amount)})
 				}
-				sort.Slice(des, func(i, j int) bool { return des[i].minor < des[j].minor })
-				dg := c07Groups{0: des}
-				if joint {
-					desR = []c07Alloc{{minor: r.Intn(2), vec: c07Vec{ra, -1, -1}}}
-					dg[1] = desR
-				}
-				_ = apiext.SetDeviceAllocations(pod, dg.api())
-			}
-			// 1 pod in 4 was created by an old client: its SPEC and its device-allocated annotation use the deprecated resource
-			// names; the scheduler sees it only after the pod informer's transformer (as every pod it schedules)
-			if r.Chance(1, 4) {
-				rq := corev1.ResourceList{}
-				for name, q := range podReq {
-					switch name {
-					case apiext.ResourceGPUCore:
-						name = apiext.DeprecatedGPUCore
-					case apiext.ResourceGPUMemoryRatio:
-						name = apiext.DeprecatedGPUMemoryRatio
-					case apiext.ResourceRDMA:
-						name = apiext.DeprecatedKoordRDMA
-					}
-					rq[name] = q
-				}
-				pod.Spec.Containers[0].Resources = corev1.ResourceRequirements{Requests: rq, Limits: rq.DeepCopy()}
-				if hasAnn {
-					na := c07NAnn{}
-					for _, a := range des {
-						na[0] = append(na[0], c07NEntry{minor: a.minor, leg: a.vec, cur: c07Absent})
-					}
-					for _, a := range desR {
-						na[1] = append(na[1], c07NEntry{minor: a.minor, leg: a.vec, cur: c07Absent})
-					}
-					_ = apiext.SetDeviceAllocations(pod, na.api())
-				}
-				h.Tag("cycle:pod-with-deprecated-names")
-			}
-			if out, err := podTx(pod); err == nil {
-				pod = out.(*corev1.Pod)
-			} else {
-				t.Fatalf("pod transformer: %v", err)
-			}
-			designated := hasAnn && hint
-			switch {
-			case designated:
-				h.Tag("cycle:designated")
-			case hasAnn:
-				h.Tag("cycle:annotation-without-hint")
-			default:
-				h.Tag("cycle:plain")
-			}
-			cs := framework.NewCycleState()
-			if hint {
-				hinter.SetSchedulingHintState(cs, &hinter.SchedulingHintStateData{Extensions: map[string]interface{}{Name: nil}})
-			}
-			h.Op("cyb %d %d %s", vB(hasAnn), vB(hint), c07EntriesTok(des))
-			var pst *fwktype.Status
-			if h.Guard(func() {
-					_, pst = pl.PreFilter(context.TODO(), cs, pod, nil)
-			}) {
-				h.Obs("panic")
-				break
-			}
-			if !pst.IsSuccess() {
-				h.Fail("C07:prefilter-refused", "PreFilter refused a well-formed GPU pod: %v", pst)
-				break
-			}
-			// does `al` fit on the value ledger l?  (designated: exactly these GPUs; else: any cnt healthy GPUs)
-			fitsDesignated := func(l *c07Ledger) bool {
-				for _, a := range des {
-					row := l.row(0, a.minor)
-					if row.t == (c07Vals{}) {
-						return false
-					}
-					for k := 0; k < c07D; k++ {
-						if req.val(k) > row.f[k] {
-							return false
-						}
-					}
-				}
-				return true
-			}
-			fitsAny := func(nd *c07MNode, l *c07Ledger) bool {
-				q := 0
-				for _, d := range nd.inv[0] {
-					row := l.row(0, d.minor)
-					if row.t == (c07Vals{}) {
-						continue
-					}
-					ok := true
-					for k := 0; k < c07D; k++ {
-						if req.val(k) > row.f[k] {
-							ok = false
-						}
-					}
-					if ok {
-						q++
-					}
-				}
-				return q >= cnt
-			}
-			fits := func(nd *c07MNode) bool {
-				if designated {
-					return fitsDesignated(nd.cur)
-				}
-				return fitsAny(nd, nd.cur)
-			}
-			// Filter over the candidate nodes, in some order
-			order := r.Perm(nn)
-			var feasible []int
-			for _, i := range order {
-				nd := sel(i)
-				h.Op("cyf %s %d %s", c07IntsTok(nd.infoMin[0]), cnt, req.tok())
-				var st *fwktype.Status
-				if h.Guard(func() {
-						st = pl.Filter(context.TODO(), cs, pod, nd.ni)
-				}) {
-					h.Obs("panic")
-					continue
-				}
-				h.Obs("filter %d", vB(st.IsSuccess()))
-				h.Tag(fmt.Sprintf("cycle:Filter:%d", vB(st.IsSuccess())))
-				if want := fits(nd); want != st.IsSuccess() {
-					h.Fail("C07:filter-verdict", "Filter of pod %d (%d GPU x %v, designated %v) on node %d answered %v; the GPUs it may use there fit = %v", id, cnt, req, designated, i, st, want)
-				}
-				if st.IsSuccess() {
-					feasible = append(feasible, i)
+				sort.Slice(sp.des, func(i, j int) bool { return sp.des[i].minor < sp.des[j].minor })
+				if sp.joint {
+					sp.desR = []c07Alloc{{minor: r.Intn(2), vec: c07Vec{sp.ra, -1, -1}}}
 				}
 			}
-			// between Filter and Reserve: an informer event on some node (another pod lands on / leaves a GPU)
-			if r.Chance(1, 2) {
+			sp.deprecated = r.Chance(1, 4)
+			sp.order = r.Perm(nn)
+			sp.between = func() { // an informer event on some node (another pod lands on / leaves a GPU)
+				if !r.Chance(1, 2) {
+					return
+				}
 				nd := ns[r.Intn(nn)]
 				if live := nd.livePods(); len(live) > 0 && r.Chance(1, 3) {
 					pid := live[r.Intn(len(live))]
-					sel(nd.idx).doDelOn(pid)
+					m.sel(nd.idx).doDelOn(pid)
 					h.Tag("cycle:event-between:pod-delete")
 				} else {
 					d := nd.inv[0][r.Intn(len(nd.inv[0]))]
 					oid := nextPod
 					nextPod++
-					sel(nd.idx).doAddOn(oid, c07Groups{0: {{minor: d.minor, vec: frac(int64(r.Pick([]int64{50, 100, 100})))}}})
+					m.sel(nd.idx).doAddOn(oid, c07Groups{0: {{minor: d.minor, vec: m.frac(int64(r.Pick([]int64{50, 100, 100})))}}})
 					h.Tag("cycle:event-between:pod-add")
 				}
 			}
 			// Reserve on a node that passed Filter (1 in 8: on any node - the framework never does that, the plugin must cope)
-			x := -1
-			if len(feasible) > 0 {
-				x = feasible[r.Intn(len(feasible))]
-			}
-			if x < 0 || r.Chance(1, 8) {
-				x = r.Intn(nn)
-				h.Tag("cycle:Reserve-on-arbitrary-node")
-			}
-			nd := sel(x)
-			before := nd.cur
-			var rst *fwktype.Status
-			var result apiext.DeviceAllocations
-			if h.Guard(func() {
-				schedulingphase.RecordPhase(cs, schedulingphase.Reserve)
-				rst = pl.Reserve(context.TODO(), cs, pod, names[x])
-				if rst.IsSuccess() {
-					if state, st := getPreFilterState(cs); st.IsSuccess() {
-						result = state.allocationResult
-					}
+			sp.pick = func(feasible []int) int {
+				x := -1
+				if len(feasible) > 0 {
+					x = feasible[r.Intn(len(feasible))]
 				}
-			}) {
-				h.Op("cyr %s %d %s 0 0", c07IntsTok(nd.infoMin[0]), cnt, req.tok())
-				h.Obs("panic")
+				if x < 0 || r.Chance(1, 8) {
+					x = r.Intn(nn)
+					h.Tag("cycle:Reserve-on-arbitrary-node")
+				}
+				return x
+			}
+			sp.unreserve = r.Chance(1, 5)
+			ok, stop := m.cycle(sp)
+			if ok {
+				reserved++
+			}
+			if stop {
 				break
-			}
-			res := c07ResultOf(0, result[schedulingv1alpha1.GPU], !rst.IsSuccess())
-			h.Op("cyr %s %d %s %d %s", c07IntsTok(nd.infoMin[0]), cnt, req.tok(), vB(res.ok), c07IntsTok(res.minors))
-			h.Tag(fmt.Sprintf("cycle:Reserve:%d", vB(res.ok)))
-			want := fits(nd)
-			if !res.ok {
-				h.Obs("alloc fail")
-				if want {
-					h.Fail("C07:reserve-refused-although-free", "Reserve of pod %d (%d GPU x %v, designated %v: %v) on node %d refused (%v) although the GPUs it may use are free there", id, cnt, req, designated, des, x, rst)
-				}
-				continue
-			}
-			ms := append([]int(nil), res.minors...)
-			sort.Ints(ms)
-			if len(ms) == 0 {
-				h.Obs("alloc ok 0")
-			} else {
-				h.Obs("alloc ok %d %s", len(ms), vIntsI(ms))
-				h.Obs("cov 1")
-			}
-			g := c07GroupsOf(result)
-			// --- the property at the commit point, on the ledger of node x as it was just before Reserve ---
-			wantTypes := 1
-			if joint {
-				wantTypes = 2
-			}
-			if len(g) != wantTypes || len(g[0]) == 0 || (joint && len(g[1]) != 1) {
-				h.Fail("C07:reserve-committed-types", "pod %d requests %d device type(s) (GPU, joint RDMA: %v); Reserve on node %d (well planned: %v) committed device types %v", id, wantTypes, joint, x, nd.wellPlanned, g.types())
-			}
-			if joint && len(g[1]) == 1 {
-				a := g[1][0]
-				row := before.row(1, a.minor)
-				if a.vec[0] != ra {
-					h.Fail("C07:alloc-unsound:amount", "RDMA %d committed %v, requested %d", a.minor, a.vec, ra)
-				}
-				if a.vec.val(0) > row.f[0] {
-					h.Fail("C07:reserve-device-not-free", "pod %d: Reserve on node %d committed %v on RDMA %d whose free amount there at that moment was %v", id, x, a.vec, a.minor, row.f)
-				}
-				if designated && len(desR) == 1 && desR[0].minor != a.minor {
-					h.Fail("C07:reserve-outside-designation", "pod %d is designated to RDMA %d, Reserve committed RDMA %d", id, desR[0].minor, a.minor)
-				}
-			}
-			if len(g[0]) != cnt {
-				h.Fail("C07:alloc-unsound:count", "%d GPUs committed, %d requested", len(g[0]), cnt)
-			}
-			seen := map[int]bool{}
-			for _, a := range g[0] {
-				if seen[a.minor] {
-					h.Fail("C07:alloc-unsound:duplicate-minor", "minor %d committed twice", a.minor)
-				}
-				seen[a.minor] = true
-				row := before.row(0, a.minor)
-				for k := 0; k < c07D; k++ {
-					if req[k] >= 0 && a.vec[k] != req[k] {
-						h.Fail("C07:alloc-unsound:amount", "GPU %d committed %v, per-GPU request %v", a.minor, a.vec, req)
-					}
-					if a.vec.val(k) > row.f[k] {
-						h.Fail("C07:reserve-device-not-free", "pod %d: Reserve on node %d committed %v on GPU %d whose free amount there at that moment was %v (total %v, in use %v)", id, x, a.vec, a.minor, row.f, row.t, row.u)
-						break
-					}
-				}
-				if designated {
-					in := false
-					for _, d := range des {
-						in = in || d.minor == a.minor
-					}
-					if !in {
-						h.Fail("C07:reserve-outside-designation", "pod %d is designated to GPUs %v, Reserve committed GPU %d", id, des, a.minor)
-					}
-				}
-			}
-			h.Op("add %d %s", id, g.tok())
-			for _, tt := range g.types() {
-				nd.noteAdd(tt, id, g[tt], before)
-			}
-			nd.cur = nd.emitLedger()
-			nd.checkLedger("commit", before, nd.cur)
-			reserved++
-			// sometimes the binding fails: Unreserve gives everything back
-			if r.Chance(1, 5) {
-				h.Op("rem %d %s", id, g.tok())
-				b2 := nd.cur
-				if h.Guard(func() { pl.Unreserve(context.TODO(), cs, pod, names[x]) }) {
-					h.Obs("panic")
-					continue
-				}
-				for _, tt := range g.types() {
-					nd.noteRemove(tt, id, g[tt])
-				}
-				nd.cur = nd.emitLedger()
-				nd.checkLedger("release", b2, nd.cur)
-				h.Tag("cycle:Unreserve")
 			}
 		}
 		if reserved > 0 {
@@ -729,9 +797,95 @@ func TestVerifC07Designated(t *testing.T) {
 		h.End()
 	}
 	h.Close("2-3 nodes with 2-3 GPUs each (same minors everywhere) and a few running pods; 1-3 scheduling cycles PreFilter -> Filter on every node (random order) -> " +
-		"[a pod add / delete event on some node] -> Reserve on a node that passed Filter (1 in 8: any node) -> [Unreserve], phases recorded with schedulingphase.RecordPhase; " +
-		"the pod carries a device-allocated annotation (designation) in 4 of 5 cycles and the DeviceShare scheduling hint in 5 of 6; 1 or 2 GPUs, fractional or whole. " +
+		"[a pod add / delete event on some node] -> Reserve on a node that passed Filter (1 in 8: any node) -> [Unreserve], Reserve under schedulingphase.RecordPhase; " +
+		"the pod carries a device-allocated annotation (designation) in 4 of 5 cycles and the DeviceShare scheduling hint in 5 of 6; 1 or 2 GPUs, fractional or whole; " +
+		"1 case in 3 with RDMA devices, well-planned nodes and joint GPU+RDMA pods; 1 pod in 4 written with deprecated resource names; every pod passes the pod transformer. " +
 		"non-trivial = at least one Reserve committed; distinct by op list")
+}
+
+// ---------------------------------------------------------------------------------------------------------------
+// C07 designated, exhaustive small scope (thorough tier): two nodes with GPUs 0 and 1 each, EVERY combination of
+//   which of the four GPUs is fully in use by a running pod                                                    16
+//   the pod (one whole GPU): no annotation / designated to GPU 0 / to GPU 1 (with hint) / to GPU 0 without hint   4
+//   Filter order: node 0 then 1 / node 1 then 0 / node 0 only / node 1 only                                     4
+//   between Filter and Reserve: nothing / a pod takes (node, GPU) whole [4] / the pod running on (node, GPU) is deleted [4]   9
+//   Reserve on node 0 / node 1                                                                                  2
+// = 4608 histories (a delete of a pod that does not exist is a no-op event and kept: the enumeration stays a product).
+// ---------------------------------------------------------------------------------------------------------------
+func TestVerifC07DesignatedExhaustive(t *testing.T) {
+	h := vOpen("C07")
+	if h == nil {
+		t.Skip("VERIF_OUT not set")
+	}
+	pl, nodes, names := c07DesignatedFixture(t)
+	podTx, _ := c07Transforms()
+	mem := int64(16 << 30)
+	orders := [][]int{{0, 1}, {1, 0}, {0}, {1}}
+	idx := 0
+	for busy := 0; busy < 16; busy++ {
+		for dz := 0; dz < 4; dz++ {
+			for _, order := range orders {
+				for ev := 0; ev < 9; ev++ {
+					for x := 0; x < 2; x++ {
+						r := h.Begin(idx)
+						idx++
+						if r == nil {
+							continue
+						}
+						pl.nodeDeviceCache = newNodeDeviceCache()
+						m := c07NewMulti(t, h, r, pl, podTx, nodes, names, 2, mem)
+						running := map[[2]int]int{}
+						nextPod := 1
+						for i := 0; i < 2; i++ {
+							for mi := 0; mi < 2; mi++ {
+								m.ns[i].inv[0] = append(m.ns[i].inv[0], c07Dev{minor: mi, healthy: true, res: c07Vec{100, mem, 100}, numa: -1})
+							}
+							m.sel(i).applyInventory(false)
+							for mi := 0; mi < 2; mi++ {
+								if busy&(1<<(2*i+mi)) != 0 {
+									running[[2]int{i, mi}] = nextPod
+									m.sel(i).doAddOn(nextPod, c07Groups{0: {{minor: mi, vec: m.frac(100)}}})
+									nextPod++
+								}
+							}
+						}
+						sp := &c07CycleSpec{id: 50, cnt: 1, amount: 100, order: order}
+						switch dz {
+						case 1, 2:
+							sp.hasAnn, sp.hint = true, true
+							sp.des = []c07Alloc{{minor: dz - 1, vec: m.frac(100)}}
+						case 3:
+							sp.hasAnn = true
+							sp.des = []c07Alloc{{minor: 0, vec: m.frac(100)}}
+						default:
+							sp.hint = true
+						}
+						sp.between = func() {
+							if ev == 0 {
+								return
+							}
+							e := ev - 1
+							i, mi := (e%4)/2, e%2
+							if e < 4 {
+								m.sel(i).doAddOn(60, c07Groups{0: {{minor: mi, vec: m.frac(100)}}})
+							} else if pid, ok := running[[2]int{i, mi}]; ok {
+								m.sel(i).doDelOn(pid)
+							}
+						}
+						sp.pick = func([]int) int { return x }
+						if ok, _ := m.cycle(sp); ok {
+							h.Nontrivial()
+						}
+						h.End()
+					}
+				}
+			}
+		}
+	}
+	h.Extra("exhaustive", fmt.Sprintf("2 nodes x 2 GPUs: 16 occupancies x 4 designations x 4 Filter orders x 9 events between x 2 Reserve nodes = %d histories", idx))
+	h.Close("exhaustive enumeration: two nodes with two GPUs each, every occupancy by running pods, a one-GPU pod without annotation / designated to GPU 0 / GPU 1 / annotated without hint, " +
+		"Filter on node 0 then 1, 1 then 0, 0 only, 1 only, then nothing / another pod takes one of the four GPUs / the pod running on one of them is deleted, then Reserve on node 0 or node 1; " +
+		"non-trivial = Reserve committed")
 }
 
 // a raw informer add / delete of another pod on this node (ops add / del of the ledger vocabulary)
